@@ -24,6 +24,13 @@ def workloadOfJson (j : Json) : Workload :=
 
 def cpuPlanOfJson (j : Json) : CpuPlan := { numa := jstr (jget j "numa"), cpuMap := planOfJson (jget j "map") }
 
+def engineOfJson (j : Json) : EngineParams :=
+  { cpu := jint (jget j "cpu"), mem := jint (jget j "mem"), cpuMap := planOfJson (jget j "map"), numa := jstr (jget j "numa"),
+    remap := jbool (jget j "remap") }
+
+def epEq (a b : EngineParams) : Bool :=
+  a.cpu == b.cpu && a.mem == b.mem && mapEq a.cpuMap b.cpuMap && a.numa == b.numa && a.remap == b.remap
+
 def planJ (p : CpuPlan) : Json := Json.mkObj [("numa", p.numa), ("map", planToJson p.cpuMap)]
 def wlJ (w : Workload) : Json :=
   Json.mkObj [("cpu", ji w.cpuReq), ("mem", ji w.memReq), ("map", planToJson w.cpuMap), ("numa", w.numa), ("numaMem", planToJson w.numaMem)]
@@ -177,10 +184,31 @@ def handle (j : Json) : Json :=
             (if bound.all fun x => nearestPieces x.cpuReq.toNat 1000 B (planTotal x.cpuMap) then [] else ["C05:recorded"]) ++
             (if implCommit == "ok" && (match commit info implWs with | .ok i' => memValid i' || !memOk | _ => false) then [] else ["C04:commit"])
           else []
+        -- C31: the engine gets exactly the recorded limits, CPU map and NUMA node
+        let implEps := (jarr (jget impl "eps")).map engineOfJson
+        let epOk := implEps.length == implWs.length && (implEps.zip implWs).all (fun (e, x) => epEq e (engineOf x))
+        let viol := viol ++ (if epOk then [] else ["C31:engine-params-vs-recorded:deploy"])
         let modTies := !exact && decide (12 < fullPlanBound B info) && viol.isEmpty &&
           (match m with | .ok ws => ws.length == implWs.length | _ => false)
-        mk ((exact || modTies) && implCommit == modelCommit) (outJ (fun ws => Json.arr (ws.map wlJ).toArray) m) viol
+        mk ((exact || modTies) && implCommit == modelCommit && epOk) (outJ (fun ws => Json.arr (ws.map wlJ).toArray) m) viol
           (if !nodeOk then "invalid-node" else if exact then "deploy" else if modTies then "deploy-mod-ties" else "deploy-mismatch") false
+  else if op == "remap" then
+    if jhas impl "seterr" then
+      mk (!info.validate) (Json.mkObj [("validate", info.validate)]) [] "invalid-node" true
+    else if crashed || jhas impl "err" then
+      mk false Json.null (if crashed && nodeOk then [crashTag] else []) "remap-crash" false
+    else
+      let wls := (jobjList (jget j "wls")).map fun (id, w) => (id, workloadOfJson w)
+      let implEpm := (jobjList (jget impl "epm")).map fun (id, e) => (id, engineOfJson e)
+      let model := calculateRemap info B wls
+      let agree := model.length == implEpm.length && model.all fun (id, e) =>
+        match implEpm.find? (fun x => x.1 == id) with | some x => epEq x.2 e | none => false
+      -- C31: each remapped (unbound) workload keeps ITS recorded limits and NUMA node
+      let recOk := implEpm.all fun (id, e) =>
+        match wls.find? (fun x => x.1 == id) with
+        | some x => e.cpu == x.2.cpuLim && e.mem == x.2.memLim && e.numa == x.2.numa && e.remap && x.2.cpuMap.isEmpty
+        | none => false
+      mk agree (Json.mkObj [("n", ji model.length)]) (if recOk then [] else ["C31:engine-params-vs-recorded:remap"]) "remap" implEpm.isEmpty
   else if op == "capacity" then
     if jhas impl "seterr" then
       mk (!info.validate) (Json.mkObj [("validate", info.validate)]) [] "invalid-node" true
@@ -231,8 +259,21 @@ def handle (j : Json) : Json :=
             !(decide (2 * (implD.cpuReq * B - 1000 * planTotal implD.cpuMap).natAbs ≤ 1000) &&
               decide (implD.cpuReq = implW.cpuReq - origin.cpuReq))
           then ["C05:recorded:realloc-delta"] else []
-        let viol := (if nodeOk && cfgOk && !implW.cpuMap.isEmpty then
-            planViolations info' B implW.cpuReq.toNat 1000 implW.memReq [⟨implW.numa, implW.cpuMap⟩] else []) ++ rec1 ++ rec2
+        let pv := if nodeOk && cfgOk && !implW.cpuMap.isEmpty then
+            planViolations info' B implW.cpuReq.toNat 1000 implW.memReq [⟨implW.numa, implW.cpuMap⟩] else []
+        -- C04 on the re-allocation: clauses of the new placement (tagged :realloc) and the commit of the delta
+        let pv := pv.map fun t => if t.startsWith "C04:" then t ++ ":realloc" else t
+        let implCommit := jstr (jget impl "commit")
+        let modelCommit := match commitRealloc info origin implW with | .ok _ => "ok" | .err e => e | _ => "crash"
+        let originLives := origin.cpuMap.all (fun kv => decide (kv.2 ≤ info.use.cpuMap.get kv.1)) &&
+          origin.numaMem.all (fun kv => decide (kv.2 ≤ info.use.numaMem.get kv.1)) && decide (origin.memReq ≤ info.use.mem)
+        let commitViol := if nodeOk && cfgOk && originLives && jhas impl "commit" &&
+            !(implCommit == "ok" && (match commitRealloc info origin implW with | .ok i' => memValid i' || !memOk | _ => false))
+          then ["C04:commit:realloc"] else []
+        let implEp := engineOfJson (jget impl "ep")
+        let epOk := !jhas impl "ep" || epEq implEp (engineOf implW)
+        let viol := pv ++ commitViol ++ rec1 ++ rec2 ++ (if epOk then [] else ["C31:engine-params-vs-recorded:realloc"])
+        let exact := exact && (!jhas impl "commit" || implCommit == modelCommit) && epOk
         mk exact (outJ wlJ m) (viol ++ c33)
           (if !nodeOk then "invalid-node" else if exact then (if inScope then "realloc" else "realloc-out-of-scope") else "realloc-mismatch") false
   else
